@@ -29,6 +29,7 @@ type TestSpec struct {
 	Rem      int64   `json:"rem,omitempty"`
 	MsgFn    bool    `json:"msgfn,omitempty"`    // z.MessageFunc setting "MF:<code>"
 	Params   []KV    `json:"params,omitempty"`   // z.Params(...) replaces the test's params
+	Edited   bool    `json:"edited,omitempty"` // Reusable, and the options were applied to a copy of the Test value after construction
 	Reusable bool    `json:"reusable,omitempty"` // custom test built with z.TestFunc(code, fn, opts...) and added with schema.Test(t)
 	TFunc    bool    `json:"tfunc,omitempty"`    // custom test written as z.Test{Func: func(val, ctx)} that adds its own issue via ctx.AddIssue(ctx.Issue()...)
 }
@@ -730,6 +731,16 @@ func (e *Engine) Build(n *Node) z.ZogSchema {
 			if t.T == "custom" {
 				if t.TFunc {
 					s.Test(e.tfuncTest(n, i, t))
+				} else if t.Reusable && t.Edited {
+					// a library of reusable tests: built once without options, then a copy is given its own code,
+					// message, params and path before it is attached - the copy's fields are the test's fields
+					base := z.TestFunc("base_of_"+t.Code, e.customFn(n, i, t, false), z.Message("BASE MESSAGE"))
+					cp := base
+					cp.IssueCode, cp.IssueFmtFunc = t.Code, nil
+					for _, opt := range o {
+						opt(&cp)
+					}
+					s.Test(cp)
 				} else if t.Reusable {
 					s.Test(z.TestFunc(t.Code, e.customFn(n, i, t, false), o...))
 				} else {
